@@ -22,6 +22,7 @@ def run(m: Model, r: Report, tier: str) -> None:
     r.rule("R5", "overrides of _request keep the locked path (delegate to super()._request or lock themselves)", floor=1)
     r.rule("R6", "lock order client mutex -> transport mutex -> connection mutex is acyclic", floor=1)
     r.rule("R7", "the cyclic tester-present worker goes through the public, locked request path", floor=1)
+    r.rule("R9", "the transport mutex spans both halves of reconnect (close and connect) and the write+read pair of request", floor=2)
     r.rule("R8", "work that uses the transport under the client mutex is awaited by the lock holder itself: never handed to a task "
                  "that outlives the critical section (asyncio.shield / create_task / ensure_future)", floor=1)
 
@@ -120,6 +121,20 @@ def run(m: Model, r: Report, tier: str) -> None:
                 "so it interleaves with the next caller's exchange", loc=f.loc)
     if n_locked_fn < 2:
         raise AnalysisError("functions running under the client mutex not found")
+
+    # ---------------------------------------------------------------- R9
+    tbase = m.require_class("gallia.transports.base.BaseTransport")
+    tmx = lm.key_for(tbase, "mutex", lm.locks)
+    if tmx is None:
+        raise AnalysisError("BaseTransport.mutex not found")
+    for fname, callees in (("reconnect", ("self.close", "self.connect")), ("request", ("self.request_unsafe", "self.write", "self.read"))):
+        tf = tbase.methods.get(fname)
+        if tf is None:
+            raise AnalysisError(f"BaseTransport.{fname} not found")
+        sites = [n for n in ast.walk(tf.node) if isinstance(n, ast.Call) and ast.unparse(n.func) in callees]
+        unlocked = [f"{ast.unparse(n.func)} (line {n.lineno})" for n in sites if tmx not in lm.held_syntactic(tf, n)]
+        r.check(bool(sites) and not unlocked, "R9", f"{tf.qualname}#under-transport-mutex",
+                f"{unlocked} run outside `async with self.mutex`: a concurrent request() holding the transport mutex is torn apart (its connection is closed under it)", loc=tf.loc)
 
     # ---------------------------------------------------------------- R2
     ru = m.require_function(f"{CLIENT}.UDSClient.request_unsafe")
